@@ -31,8 +31,8 @@ ASSUMPTIONS = [
     "tables with an unknown codec name are only left alone or read (their value cannot be re-encoded by this API)",
 ]
 REQUIRED_TAGS = {
-    "quick": ["act:mutate", "act:retype", "act:assign", "act:assign-unread", "act:read", "table:unknown-unreached", "table:unknown-reached", "table:noncanonical", "gens>=2"],
-    "thorough": ["act:mutate", "act:retype", "act:assign", "act:assign-unread", "act:read", "table:unknown-unreached", "table:unknown-reached", "table:noncanonical", "gens>=2"],
+    "quick": ["act:mutate-held-reference-after-save", "gen:same-ir-saved-again", "table:twin", "act:mutate", "act:retype", "act:assign", "act:assign-unread", "act:read", "table:unknown-unreached", "table:unknown-reached", "table:noncanonical", "gens>=2"],
+    "thorough": ["act:mutate-held-reference-after-save", "gen:same-ir-saved-again", "table:twin", "act:mutate", "act:retype", "act:assign", "act:assign-unread", "act:read", "table:unknown-unreached", "table:unknown-reached", "table:noncanonical", "gens>=2"],
 }
 
 UNKNOWN_NAMES = ["foo", "my", "uint128_t", "Set", "string "]
